@@ -8,6 +8,7 @@ import BV.C19.Model
 import BV.C19.Session
 import BV.C19.Lemmas
 import BV.C19.Stream
+import BV.C19.SessionLemmas
 import BV.C19.EllswiftLemmas
 import BV.C19.EllswiftExample
 import BV.Generated.C19
@@ -196,6 +197,66 @@ theorem handshake_completes (P : Prims) (hmac : ∀ k m, (P.mac k m).length = 16
   rw [e2] at hT hno ⊢
   exact Lemmas.complete_ok P hmac (mkSession k ini) myGarbage myDecoys written mb send' hmine G
     (by simpa [MAX_GARBAGE_LEN] using hG) hT peerDecoys pb d' hpeer rest hno
+
+/-- **End to end, both roles.** An initiator (random stream `rndA`, garbage length `gA`, decoys
+`decoysA`) and a responder (`rndB`, `gB`, `decoysB`) that read each other's bytes both complete
+the handshake — for every garbage length 0 … 4095 and every list of decoys on either side — with
+mirrored cipher states (each side's receive ciphers = the other side's send ciphers, so
+`stream_sync` governs all later traffic in both directions), the same session id, and each having
+consumed exactly the other's handshake bytes. Hypotheses: ECDH symmetry `hx` (group theory, not
+proved here), the decoys are within the size limit (`hdA`, `hdB`), terminators are 16 bytes
+(`hTA`, `hTB`: HKDF output length), the initiator's key is not mistaken for a v1 version message
+(`hv1`, `hnet`), and a terminator does not occur inside the garbage preceding it (`hnoA`, `hnoB`). -/
+theorem session_established (P : Prims) (hmac : ∀ k m, (P.mac k m).length = 16) (K : Kdf) (magic : Nat)
+    (rndA rndB : List UInt8) (gA gB : Nat) (hgA : gA ≤ MAX_GARBAGE_LEN) (hgB : gB ≤ MAX_GARBAGE_LEN)
+    (decoysA decoysB : List Nat)
+    (a b : Nat) (ellA ellB rA rB : List UInt8)
+    (hcA : Ellswift.create rndA = some (a, ellA, rA)) (hcB : Ellswift.create rndB = some (b, ellB, rB))
+    (hlA : ellA.length = 64) (hlB : ellB.length = 64)
+    (hx : Ellswift.ecdhXOnly ellB a = Ellswift.ecdhXOnly ellA b)
+    (secret : List UInt8) (hs : Ellswift.v2Ecdh a ellB ellA true = some secret)
+    (pbA pbB : List UInt8) (dA dB : Dir)
+    (hdA : sendDecoys P (mkSession (schedule K secret magic) true).send (rA.take gA) decoysA [] = .ok (pbA, dA))
+    (hdB : sendDecoys P (mkSession (schedule K secret magic) false).send (rB.take gB) decoysB [] = .ok (pbB, dB))
+    (hTA : (mkSession (schedule K secret magic) true).sendTerm.length = 16)
+    (hTB : (mkSession (schedule K secret magic) false).sendTerm.length = 16)
+    (restA restB : List UInt8) (i : Nat)
+    (hv1 : v1Mismatch (v1Prefix magic) (ellA ++ (rA.take gA ++
+      ((mkSession (schedule K secret magic) true).sendTerm ++ (pbA ++ restB)))) 16 0 = .ok i)
+    (hnet : (ellA.drop 4).take 12 ≠ ((v1Prefix magic).drop 4).take 12)
+    (hnoA : ∀ j, j < (rB.take gB).length → ((rB.take gB ++
+      ((mkSession (schedule K secret magic) false).sendTerm ++ (pbB ++ restA))).drop j).take 16 ≠
+        (mkSession (schedule K secret magic) false).sendTerm)
+    (hnoB : ∀ j, j < (rA.take gA).length → ((rA.take gA ++
+      ((mkSession (schedule K secret magic) true).sendTerm ++ (pbA ++ restB))).drop j).take 16 ≠
+        (mkSession (schedule K secret magic) true).sendTerm) :
+    let sI := mkSession (schedule K secret magic) true
+    let sR := mkSession (schedule K secret magic) false
+    let outA := initiator P K magic rndA gA decoysA (ellB ++ (rB.take gB ++ (sR.sendTerm ++ (pbB ++ restA))))
+    let outB := responder P K magic rndB gB decoysB (ellA ++ (rA.take gA ++ (sI.sendTerm ++ (pbA ++ restB))))
+    outA.status = .ok ∧ outB.status = .ok ∧
+    outA.written = ellA ++ rA.take gA ++ sI.sendTerm ++ pbA ∧
+    outB.written = ellB ++ rB.take gB ++ sR.sendTerm ++ pbB ∧
+    outA.sess = some { sI with send := dA, recv := dB } ∧
+    outB.sess = some { sR with send := dB, recv := dA } ∧
+    outA.rest = restA ∧ outB.rest = restB := by
+  have hs' : Ellswift.v2Ecdh b ellA ellB false = some secret := by
+    rw [← shared_secret_agree a b ellA ellB hx]; exact hs
+  have hA := Lemmas.initiator_keys P K magic rndA gA decoysA a ellA rA hcA (by simpa [MAX_GARBAGE_LEN] using hgA)
+    ellB (rB.take gB ++ ((mkSession (schedule K secret magic) false).sendTerm ++ (pbB ++ restA))) hlB secret hs
+  have hB := Lemmas.responder_keys P K magic rndB gB decoysB b ellB rB hcB (by simpa [MAX_GARBAGE_LEN] using hgB)
+    ellA (rA.take gA ++ ((mkSession (schedule K secret magic) true).sendTerm ++ (pbA ++ restB))) hlA i hv1 hnet
+    secret hs'
+  have cA := handshake_completes P hmac (schedule K secret magic) true (rA.take gA) decoysA
+    (ellA ++ rA.take gA) pbA dA hdA (rB.take gB)
+    (by simp only [List.length_take]; exact Nat.le_trans (Nat.min_le_left _ _) hgB) hTB decoysB pbB dB hdB restA hnoA
+  have cB := handshake_completes P hmac (schedule K secret magic) false (rB.take gB) decoysB
+    (ellB ++ rB.take gB) pbB dB hdB (rA.take gA)
+    (by simp only [List.length_take]; exact Nat.le_trans (Nat.min_le_left _ _) hgA) hTA decoysA pbA dA hdA restB hnoB
+  simp only [Bool.not_true, Bool.not_false] at cA cB
+  simp only []
+  rw [hA, hB]
+  exact ⟨cA.1, cB.1, cA.2.2.2, cB.2.2.2, cA.2.1, cB.2.1, cA.2.2.1, cB.2.2.1⟩
 
 /-! ### ElligatorSwift: decode ∘ encode = id -/
 
